@@ -5,6 +5,8 @@ Line protocol for C09 (one server per case):
 ```
 new xSERVICE xSERVERID (nopv | pv xVERSION)                     NewServer + SetServiceName/SetServerID/SetProtocolVersion
 reg <api> xNAME xPARAMS xRESULT xEMPTY (xOUTPUT|-) (xHEADER|-)   one registration; schemas as IPC bytes
+httpopt <k=v>…                                                   build the HttpServer with these options (no effect on the model)
+setsid xID / setsvc xNAME                                        Server.SetServerID / SetServiceName after construction
 describe <pipe|http>                                             the decoded __describe__ response
 hash                                                             Server.ProtocolHash()
 api := unary | unaryvoid | producer | producerh | exchange | exchangeh | dynamich
@@ -81,6 +83,22 @@ def step (st : Option St) (ws : List String) : Option St × String :=
     match st with
     | none => (st, "err:no-server")
     | some s => (st, showDescribe (describe s.cfg s.methods))
+  | "httpopt" :: _ =>
+    -- HttpServer-level options (display name, prefix, compression, CORS, pages, sticky, caps, auth):
+    -- none of them is an input of `describe`
+    match st with
+    | none => (st, "err:no-server")
+    | some _ => (st, "ok")
+  | ["setsid", sid] =>
+    match st, parseHexArg sid with
+    | none, _ => (st, "err:no-server")
+    | some s, some b => (some { s with cfg := { s.cfg with serverID := b } }, "ok")
+    | _, none => (st, "bad-op")
+  | ["setsvc", svc] =>
+    match st, parseHexArg svc with
+    | none, _ => (st, "err:no-server")
+    | some s, some b => (some { s with cfg := { s.cfg with serviceName := b } }, "ok")
+    | _, none => (st, "bad-op")
   | ["hash"] =>
     match st with
     | none => (st, "err:no-server")
